@@ -255,6 +255,11 @@ def _jobs(tier):
     for sh in shapes:
         for qs in itertools.product(range(8), repeat=len(sh)):
             js.append({"h": "c04.history", "cfg": {"shape": sh, "qs": list(qs)}, "opts": {"cost": 10 ** len(sh), "witnesses": 1}})
+    for sh in ("AAAR", "AARA"):       # quick and thorough: four operations with one removal, quotients in a window of 3, every window
+        for q0 in range(8):
+            for rel in itertools.product(range(3), repeat=4):
+                if rel[0] == 0:
+                    js.append({"h": "c04.deep", "cfg": {"shape": sh, "qs": [(q0 + r) % 8 for r in rel]}, "opts": {"cost": 300, "witnesses": 1}})
     for sh in ("AAAAA",) if tier == "quick" else ("AAAAA", "AAAAR", "AAARA", "AARAA"):
         for q0 in (3, 6) if tier == "quick" else range(8):
             for rel in itertools.product(range(3), repeat=5):
